@@ -8,7 +8,7 @@ from engine import Op, set_mode
 
 PROP = "C18"
 QUICK_BOOST = 2
-LEAN_MODULES = ["IsoDT.Props.C18", "IsoDT.Props.C18b"]
+LEAN_MODULES = ["IsoDT.Props.C18", "IsoDT.Props.C18b", "IsoDT.Props.C18c"]
 RULE = ("system zone configurations: every whole-minute standard offset within +-24 h x alternative offset "
         "(same, +-30, +-60 min) x daylight flag x is-dst in {-1,0,1} (exhaustive in the thorough tier, a "
         "stride in quick), entered by patching the `time` module object that timezone.py uses; second counts "
@@ -302,9 +302,10 @@ class StrptimeUnix(Op):
     model = False
 
     ZONES = [None, (0, 0), (5, 30), (-3, 0), (-9, -30), (12, 0), (0, 45)]
+    _parsers = {}
 
     def gen(self, rng, tier, boost):
-        n = 500 * boost if tier == "quick" else 5000 * boost
+        n = 250 * boost if tier == "quick" else 5000 * boost
         for _ in range(n):
             m = gens.mode(rng)
             ep = T.inst(m, ("c", 1970, 1, 1, 0, 0, 0, 0, 0))
@@ -337,7 +338,10 @@ class StrptimeUnix(Op):
                 kw["assumed_time_zone"] = assumed
             elif unknown:
                 kw["default_to_unknown_time_zone"] = True
-            return T.canon_tp(TimePointParser(**kw).strptime(str(secs), "%s"))
+            key = tuple(sorted(kw.items()))
+            if key not in self._parsers:
+                self._parsers[key] = TimePointParser(**kw)
+            return T.canon_tp(self._parsers[key].strptime(str(secs), "%s"))
         finally:
             tzmod.get_local_time_zone = saved
 
@@ -359,5 +363,6 @@ class StrptimeUnix(Op):
 
 def ops():
     import strf2ops
+    import strpzoneops
     return [LocalTZ(), LocalTZFormat(), FromUnix(), Since(), SinceFrac(), FromUnixFrac(), StrptimeUnix(),
-            strf2ops.UnixQOp()]
+            strpzoneops.StrpZone("C18"), strf2ops.UnixQOp()]
